@@ -21,7 +21,7 @@ def ident(rng, n=3):
 
 def new_workspace(rng, nmods=None):
     tag = ident(rng, 2)
-    ws = {"tag": tag, "files": {}, "counter": 0}
+    ws = {"tag": tag, "files": {}, "counter": 0, "tabs": rng.random() < 0.15}
     nmods = nmods or rng.randint(2, 4)
     mods = []
     for i in range(nmods):
@@ -408,7 +408,15 @@ def render(unit):
 
 
 def render_all(ws):
-    return {name: render(u) for name, u in sorted(ws["files"].items())}
+    out = {name: render(u) for name, u in sorted(ws["files"].items())}
+    if ws.get("tabs"):
+        # the same sources as a TAB-indenting editor writes them
+        import re as _re
+
+        for name in out:
+            if not name.endswith("_inc.f90"):
+                out[name] = _re.sub(r"(?m)^(?:  )+", lambda m: "\t" * (len(m.group(0)) // 2), out[name])
+    return out
 
 
 # ------------------------------------------------------------------ edit operators
